@@ -220,7 +220,7 @@ def _sym(env, text):
     m = re.match(r"bound_to_bound\(\s*(.*)\)$", t)
     if m:
         return _sym(env, m.group(1))
-    m = re.match(r"state\.seq_no$", t)
+    m = re.match(r"state\.(?:visible_)?seq_no$", t)
     if m:
         return ("sym", "seq_no")
     m = re.match(r"([a-z_]+)\.(setsum)$", t)
@@ -401,7 +401,8 @@ def _block(ctx, rf, lo, hi, env, which, depth, nested=False):
                     env[nme] = ("optmemtable", ("imm",))
                 elif re.match(r"self\.tree\.take_snapshot\(\)$", d):
                     env[nme] = ("versionref", ("version",))
-                elif re.match(r"state\.seq_no$", d):
+                elif re.match(r"state\.(?:visible_)?seq_no$", d):
+                    # the snapshot timestamp (that it covers fully applied batches only is unit lsmtk_visible, C06)
                     env[nme] = ("val", ("sym", "seq_no"))
                 else:
                     raise Unsupported(f"snapshot component {nme} = {d}")
